@@ -20,11 +20,13 @@ import glob
 import json
 import os
 import re
+import sys
 from concurrent.futures import ThreadPoolExecutor
 
 from vlib.core import C, Raw, coq
 from checks import datalog_common as dc
 
+sys.setrecursionlimit(20000)
 ALL_STORES = ["simple", "indexed", "multi", "array", "merged", "teeing"]
 FUEL = 80
 LIMIT = 5000
@@ -136,8 +138,18 @@ def cq_rule(c):
     return C("mkRule", cl, C("Some", C("mkDo", list(d["keys"]), stmts)), list(fresh.made))
 
 
+def cq_const(c):
+    """dc.cq_const with flat lists (a collected list can have hundreds of elements)."""
+    k = c[0]
+    if k == "pair":
+        return C("CPair", cq_const(c[1]), cq_const(c[2]))
+    if k == "list":
+        return C("list_of_consts", [cq_const(x) for x in c[1]])
+    return dc.cq_const(c)
+
+
 def cq_fact(f):
-    return (pid(f["p"]), [dc.cq_const(c) for c in f["args"]])
+    return (pid(f["p"]), [cq_const(c) for c in f["args"]])
 
 
 def conv_const(c):
@@ -685,7 +697,7 @@ def run(ck):
         progs.append(json.load(open(path))["program"])
         origin.append("corpus:" + os.path.basename(path))
     ncorpus = len(progs)
-    for _ in range(ck.n(200, 1500)):
+    for _ in range(ck.n(200, 2500)):
         progs.append(gen_program(rng, big=(not ck.quick) and rng.random() < 0.4))
         origin.append("random")
     nrandom = len(progs) - ncorpus
